@@ -264,6 +264,12 @@ def judge(cfg, recs, nodist, mon, via="fake"):
                     mon.check(x["e"] == k and x["list"] == lists[k] and x["len"] == len(x["list"]),
                               "serialised-between-epochs", rank=r, which=which, step=k, epoch_attr=x["e"],
                               len=x["len"], observed=x["list"], expected=lists[k])
+        if "numpy_epoch" in rec:
+            nx = rec["numpy_epoch"]
+            for k in range(len(nx["lists"])):
+                mon.check(nx["epoch_attr"][k] == 252 + k and nx["lists"][k] == nx["direct"][k], "numpy-typed-init-epoch",
+                          rank=r, step=k, epoch_attr=nx["epoch_attr"][k], observed=nx["lists"][k],
+                          expected=nx["direct"][k])
         if "partial" in rec:
             # an abandoned iterator: whatever the `epoch` state then names as next is what comes next
             p = rec["partial"]
